@@ -44,6 +44,9 @@ func hostileExec(c *Ctx, op string) {
 		os.WriteFile(filepath.Join(target, "d", "old"), []byte("old"), 0644)
 		os.Symlink(victim, filepath.Join(target, "prelink"))
 		os.Symlink(filepath.Join(victim, "passwd"), filepath.Join(target, "prefile"))
+		// a plain file that shares its inode with a file outside the target (and a directory entry of the same kind)
+		os.Link(filepath.Join(victim, "passwd"), filepath.Join(target, "d", "hard"))
+		os.Link(filepath.Join(sandbox, "neighbour"), filepath.Join(target, "hard2"))
 	}
 	var hdrs []RawHdr
 	if f[3] != "-" {
@@ -212,6 +215,8 @@ func hostileEngine(c *Ctx) {
 		{dir("./"), lnk("d", "@V@", 0777, 0), lnk("d/passwd", "x", 0777, 0)},
 		{dir("./"), file("prelink/pwned")},                                // pre-existing link in the target
 		{dir("./"), file("prefile")},                                      // pre-existing link at the leaf
+		{dir("./"), dir("d/"), file("d/hard")},                            // pre-existing plain file whose inode is shared with the outside
+		{dir("./"), file("hard2"), dir("d/"), RawHdr{Name: "d/hard", Typeflag: '0', Mode: 0600, Uid: 4242, Gid: 4242, Sec: 2e9}},
 		{dir("./"), lnk("a", "b", 0777, 0), lnk("b", "@V@", 0777, 0), file("a/pwned")},
 		{dir("./"), RawHdr{Name: "hl", Typeflag: '1', Link: "@V@/passwd"}},
 		{lnk("x/..", "@V@", 0777, 0), file("pwned")},
